@@ -37,7 +37,19 @@ def do_replay(prop, path, raw):
             sig, rec = _import_violation(prop, e)
             got = [rec]
     else:
-        got = mod.replay(record)
+        try:
+            if record.get('subcheck') == 'uncaught' and 'case' in record and hasattr(mod, 'run_case_any'):
+                got = mod.run_case_any(record)
+            else:
+                got = mod.replay(record)
+        except core.PhylibImportError:
+            raise
+        except Exception as e:
+            # the replayed case crashes: same classification as in the explorer
+            acc = core.Acc()
+            core._uncaught(mod.replay, e, acc, 0, case=record.get('case'), trace=record.get('trace'),
+                           prop=prop)
+            got = [dict(v['record'], signature=s) for s, v in acc.violations.items()]
     match = [r for r in got if r['signature'] == record['signature']]
     print('replay %s: signature %s' % (path, record['signature']))
     print('  expected: %s' % json.dumps(record.get('expected'))[:600])
